@@ -97,6 +97,22 @@ CHECKS["C09"]["text"] += " Added: the translate clause on shared-formula childre
 CHECKS["C02"]["text"] += " Added: every corpus file opened lazily, first or last sheet materialised and edited, decoded package compared with an eagerly loaded twin."
 CHECKS["C11"]["text"] += " Added operation: fork (a clone of the lazily opened workbook is fully loaded, saved and dropped; clones share the loaded string table, the original must not notice)."
 CHECKS["C19"]["text"] += " Added: every text also as the cached result of a formula and as the reader leaves it."
+CHECKS["C01"]["text"] += " Added values: text-then-formula cells, font-less rich texts whose run keys collide."
+CHECKS["C02"]["text"] += " Added: chart and picture features in the lattice (2^13 subsets), second-session and post-ops spaces, corpus files in a second session."
+CHECKS["C03"]["text"] += " Added generator cases: r-less rows behind cell-less rows, linked picture, family `multi` (several sheets over one string table with duplicate and unused entries)."
+CHECKS["C04"]["text"] += " Added: style / hyperlink / new-number-format edits; the dump covers pictures, charts and embedded objects."
+CHECKS["C05"]["text"] += " Added: second-session and overwrite-same-attribute spaces."
+CHECKS["C06"]["text"] += " Added kind: links on the corner cells of merged blocks; annotations are added in a scrambled order."
+CHECKS["C07"]["text"] += " Added: one-axis ranges (C:D, 3:4) in the reference model and the annotated seed."
+CHECKS["C08"]["text"] += " Added: string literals outside ASCII; qualified intersections in the core formulas."
+CHECKS["C09"]["text"] += " Added clauses: identity under edits on another sheet (formula on the sheet its qualified references name) and under inserts along the axis its references do not have; string literals outside ASCII."
+CHECKS["C10"]["text"] += " Added space `magnitudes`: cells at rows beyond 16384 / 65536 / 10^6 and column 16000 under a 10-operation alphabet."
+CHECKS["C13"]["text"] += " Added: destinations that are symbolic links / hard-linked files; a healthy save after every faulted sink case."
+CHECKS["C14"]["text"] += " Added: the second set_password save of every case reads its source from a named pipe."
+CHECKS["C15"]["text"] += " Added: a foreign verifier (SHA-256, 1000 spins) planted before set_password."
+CHECKS["C17"]["text"] += " Added space range-history: a merged / conditional-format / auto-filter range printed, moved by a structural edit and printed again."
+CHECKS["C18"]["text"] += " Added formats: conditional two-section codes after a time-of-day prelude, codes with quoted literals in front / side by side / at the end."
+CHECKS["C20"]["text"] += " Added: every case starts with an export into a writer that refuses every byte."
 CHECKS["C20"]["text"] += " Added: every presence pattern with one more cell that was written and removed again (the highest used row/column is that of what is left)."
 CHECKS["C07"]["text"] += " Added seeded states: the dense and the annotated sheet as the reader leaves them (saved and loaded)."
 CHECKS["C16"]["text"] += " Added configurations: lazily opened workbooks that are never touched before the savers start."
